@@ -72,6 +72,14 @@ pub fn record_temp(seed: u64, thorough: bool, path: &str) -> Value {
     let first = temp_file_name("verif-temp-start");
     let start = parse_count(&first).map(|c| c + 1).unwrap_or(0);
     hooks::start_atomic_log();
+    // names taken early for name parts that end in what the function itself may append (the process id, separators, digits):
+    // material for the adversarial requests below
+    hooks::set_thread_tag(threads + 4);
+    let pid_s = std::process::id().to_string();
+    let mut early: Vec<(String, String)> = Vec::new();
+    for part in [format!("adv-{}", pid_s), format!("adv{}_", pid_s), format!("adv_{}_0", pid_s), "adv-".to_string(), format!("adv-{}{}", pid_s, pid_s)] {
+        early.push((part.clone(), temp_file_name(&part).to_string_lossy().to_string()));
+    }
     let mut handles = Vec::new();
     for t in 0..threads {
         handles.push(std::thread::spawn(move || {
@@ -83,6 +91,39 @@ pub fn record_temp(seed: u64, thorough: bool, path: &str) -> Value {
         }));
     }
     let mut results: Vec<Vec<(String, String)>> = handles.into_iter().map(|h| h.join().unwrap()).collect();
+    // adversarial requests: for every name N handed out early and every way to split it into a prefix B and a rest that ends in a
+    // number c above the current counter value, the counter is moved to c and a name is requested for the part B.  If the function
+    // glues part, process id and counter together without unambiguous separators, one of these requests returns N again.
+    hooks::set_thread_tag(threads + 4);
+    {
+        let cur = parse_count(&temp_file_name("verif-temp-cur")).unwrap_or(usize::MAX);
+        let tmp = std::env::temp_dir().to_string_lossy().to_string();
+        let mut probes: Vec<(usize, String)> = Vec::new();
+        for (_, full) in early.iter() {
+            let n = full.strip_prefix(tmp.as_str()).map(|x| x.trim_start_matches('/')).unwrap_or(full.as_str());
+            if !n.is_ascii() { continue; }
+            for j in 1..n.len() {
+                let (b, rest) = n.split_at(j);
+                for k in 0..rest.len() {
+                    let digits = &rest[k..];
+                    if digits.is_empty() || !digits.bytes().all(|c| c.is_ascii_digit()) || digits.starts_with('0') && digits.len() > 1 { continue; }
+                    if let Ok(c) = digits.parse::<usize>() { if cur != usize::MAX && c > cur + 1 && c < (1usize << 40) { probes.push((c, b.to_string())); } }
+                }
+            }
+        }
+        probes.sort(); probes.dedup();
+        let mut at = cur;
+        for (c, b) in probes.into_iter().take(1500) {
+            if c <= at { continue; }
+            hooks::force_store_all(c);
+            early.push((b.clone(), temp_file_name(&b).to_string_lossy().to_string()));
+            at = c + 1;
+        }
+    }
+    // name parts that are different texts for the same path: the paths handed out are compared as paths
+    hooks::set_thread_tag(threads + 5);
+    let mut same: Vec<(String, String)> = Vec::new();
+    for part in ["norm", "./norm", "././norm", "nrm//z", "nrm/z", "nrm/./z"] { for _ in 0..3 { same.push((part.to_string(), temp_file_name(part).to_string_lossy().to_string())); } }
     // the name format around powers of two: move the counter and take a few names on each side
     hooks::set_thread_tag(threads);
     let mut extra: Vec<(String, String)> = Vec::new();
@@ -129,6 +170,8 @@ pub fn record_temp(seed: u64, thorough: bool, path: &str) -> Value {
     for _ in 0..12 { stale.push((spart.clone(), temp_file_name(&spart).to_string_lossy().to_string())); }
     for p in created { let _ = std::fs::remove_file(p); }
     results.push(stale);
+    results.push(early);       // thread tag threads + 4
+    results.push(same);        // thread tag threads + 5
     let log = hooks::stop_atomic_log();
     let mut out = TraceOut::new();
     out.push(json!({"e": "start", "start": start, "threads": threads, "calls": calls}));
@@ -147,8 +190,10 @@ pub fn record_temp(seed: u64, thorough: bool, path: &str) -> Value {
             // a name part may contain path separators: the part is looked for in the whole path, and the whole path below the
             // temporary directory is what must be unique
             let tmp = std::env::temp_dir().to_string_lossy().to_string();
-            let name = p.strip_prefix(tmp.as_str()).map(|s| s.trim_start_matches('/').to_string()).unwrap_or_else(|| p.clone());
-            if !all.insert(p.clone()) { dup += 1; }
+            // two paths are the same path when their components are (Path equality: repeated separators and `.` components do not count)
+            let norm: String = std::path::Path::new(p).components().map(|c| c.as_os_str().to_string_lossy().to_string()).collect::<Vec<String>>().join("/").replace("//", "/");
+            let name = norm.strip_prefix(tmp.as_str()).map(|s| s.trim_start_matches('/').to_string()).unwrap_or_else(|| norm.clone());
+            if !all.insert(norm.clone()) { dup += 1; }
             out.push(json!({"e": "name", "thread": t, "path": name, "has_part": p.contains(part.as_str()), "has_pid": name.contains(&pid)}));
         }
     }
